@@ -44,9 +44,10 @@ def decls(schema):
     return elements, types, comp
 
 
+B_COMP_NAME = 'Comp'
 with notrace():
     _bp = load_bp()
-    B_ELEMS, B_TYPES, B_COMP = decls(G.build_schema(_bp, _bp.select_one('C_C')))
+    B_ELEMS, B_TYPES, B_COMP = decls(G.build_schema(_bp, _bp.select_one('C_C', lambda x: x.Name == B_COMP_NAME)))
     ATTR_SITES = [(one(a).O_OBJ[102]().Key_Lett, a.Name) for a in _bp.select_many('O_ATTR')]
     BASE_ATTRS = [(one(a).O_OBJ[102]().Key_Lett, a.Name) for a in _bp.select_many('O_ATTR') if not one(a).O_RATTR[106]()]
     CLASSES = [o.Key_Lett for o in _bp.select_many('O_OBJ')]
@@ -69,7 +70,7 @@ def same_elems(got, exp):
 
 def finish(bp, exp_elems, exp_types, what, wellformed=False):
     global LAST_DIFF
-    schema = G.build_schema(bp, bp.select_one('C_C'))
+    schema = G.build_schema(bp, bp.select_one('C_C', lambda x: x.Name == B_COMP_NAME))
     elems, types, comp = decls(schema)
     if comp != B_COMP or not same_elems(elems, exp_elems):
         LAST_DIFF = ('element declarations (%s)' % what, repr(elems), repr(exp_elems)); return False
@@ -88,7 +89,7 @@ def finish(bp, exp_elems, exp_types, what, wellformed=False):
 
 def pregen(bp):
     """generate the schema once BEFORE the edit, on the same model object (generate - edit - generate)"""
-    G.build_schema(bp, bp.select_one('C_C'))
+    G.build_schema(bp, bp.select_one('C_C', lambda x: x.Name == B_COMP_NAME))
 
 
 def find_attr(bp, kl, name):
@@ -163,6 +164,29 @@ def check_retype(bi: int, ti: int) -> bool:
     return finish(bp, exp, exp_types, 'retype %s.%s to %s' % (kl, name, TYPES[ti]))
 
 
+REF_ATTRS = [x for x in ATTR_SITES if x not in BASE_ATTRS]
+NREF = len(REF_ATTRS)
+
+
+def check_reftype(ri: int, ti: int) -> bool:
+    """
+    pre: 0 <= ri < NREF and 0 <= ti < 9
+    post: POST(_)
+    """
+    # a referential attribute is typed by the REFERRED attribute's base type, whatever its own DT_ID says
+    ri = cs(ri, 0, NREF - 1); ti = cs(ti, 0, 8)
+    kl, name = REF_ATTRS[ri]
+    with notrace():
+        bp = load_bp()
+        attr = find_attr(bp, kl, name)
+        new_dt = bp.select_one('S_DT', lambda x: x.Name == TYPES[ti])
+        pregen(bp)
+        xtuml.unrelate(attr, one(attr).S_DT[114](), 114)
+        xtuml.relate(attr, new_dt, 114)
+    case(EDIT, kl, name, TYPES[ti])
+    return finish(bp, B_ELEMS, B_TYPES, 'own data type of referential %s.%s set to %s' % (kl, name, TYPES[ti]))
+
+
 def check_enum(op: int, s: str) -> bool:
     """
     pre: 0 <= op < 3 and 1 <= len(s) <= 3
@@ -234,13 +258,15 @@ def check_udt(bi: int, ni: int) -> bool:
 
 def check_scope(ci: int, how: int) -> bool:
     """
-    pre: 0 <= ci < NCLS and 0 <= how < 3
+    pre: 0 <= ci < NCLS and 0 <= how < 5
     post: POST(_)
     """
     # 0: move class ci out of the component (into the top-level package), 1: make its first base
-    # attribute derived, 2: no edit (baseline = reviewed expected declarations, well-formed XML)
+    # attribute derived, 2: no edit (baseline = reviewed expected declarations, well-formed XML),
+    # 3: move it into a package of a component NESTED in the component (still contained: no change),
+    # 4: move it into a package of a sibling component (leaves the component)
     global LAST_DIFF
-    ci = cs(ci, 0, NCLS - 1); how = cs(how, 0, 2)
+    ci = cs(ci, 0, NCLS - 1); how = cs(how, 0, 4)
     kl = CLASSES[ci]
     with notrace():
         bp = load_bp()
@@ -252,6 +278,19 @@ def check_scope(ci: int, how: int) -> bool:
             xtuml.unrelate(pe, one(pe).EP_PKG[8000](), 8000)
             xtuml.relate(pe, bp.select_one('EP_PKG', lambda x: x.Name == 'Components'), 8000)
             del exp[kl]
+        elif how in (3, 4):
+            pe = one(o).PE_PE[8001]()
+            home = one(pe).EP_PKG[8000]()
+            c_c = bp.new('C_C', Name='Inner', Mult=0, isRealized=False)
+            pe_c = bp.new('PE_PE', Visibility=1, type=2)
+            xtuml.relate(c_c, pe_c, 8001)
+            xtuml.relate(pe_c, home if how == 3 else bp.select_one('EP_PKG', lambda x: x.Name == 'Components'), 8000)
+            pkg = bp.new('EP_PKG', Name='P')
+            pe_p = bp.new('PE_PE', Visibility=1, type=7)
+            xtuml.relate(pkg, pe_p, 8001); xtuml.relate(pe_p, c_c, 8003)
+            xtuml.unrelate(pe, home, 8000); xtuml.relate(pe, pkg, 8000)
+            if how == 4:
+                del exp[kl]
         elif how == 1:
             battr = one(o).O_ATTR[102].O_BATTR[106]()
             if battr is None or one(battr).O_ATTR[106]().Name not in [a for a, _ in exp[kl]]:
